@@ -175,6 +175,20 @@ impl Freelist {
     }
 }
 
+#[cfg(feature = "verif-hooks")]
+impl Freelist {
+    // copy of the free set and the pending lists, for the verification harness
+    pub(crate) fn verif_parts(&self) -> (Vec<PageID>, Vec<(u64, Vec<PageID>)>) {
+        (
+            self.free_pages.iter().cloned().collect(),
+            self.pending_pages
+                .iter()
+                .map(|(k, v)| (*k, v.clone()))
+                .collect(),
+        )
+    }
+}
+
 #[cfg(test)]
 mod tests {
     use super::*;
